@@ -191,7 +191,7 @@ func (c ImportCase) NumImports() int {
 //	2 deviations under the default interleaving as one file.
 func EnumCases(tier string) (cases []ImportCase, rule string) {
 	thorough := tier == "thorough"
-	threeTouching := 0
+	threeTouching, noiseCases := 0, 0
 	if thorough {
 		// the long-running items first: captures large enough to make the importer use snapshots
 		for _, set := range ref.Sets() {
@@ -260,6 +260,26 @@ func EnumCases(tier string) (cases []ImportCase, rule string) {
 							}
 						}
 					}
+					// frames that carry no stream (ARP, LLDP, ICMP, an IPv4 frame cut inside its TCP header) in front of
+					// the first packet / in the middle of the capture: one file, and cut directly in front of the frame
+					if len(devs) == 0 && link == "eth" && (ili == 0 || thorough) {
+						for _, kind := range []string{"arp", "lldp", "icmp", "v4junk", "udpjunk"} {
+							for _, pos := range []int{0, n / 2} {
+								cc := base
+								cc.Noise = fmt.Sprintf("%s@%d", kind, pos)
+								if _, err := ref.Build(cc); err != nil {
+									continue // in front of a packet tied to its predecessor
+								}
+								cases = append(cases, ImportCase{Case: cc, Batch: "all"})
+								noiseCases++
+								if pos > 0 {
+									cc.Cuts = []int{pos}
+									cases = append(cases, ImportCase{Case: cc, Batch: "each"}, ImportCase{Case: cc, Batch: "rev"})
+									noiseCases += 2
+								}
+							}
+						}
+					}
 					for c := lo; c <= hi; c++ {
 						cc := base
 						cc.Cuts = []int{c}
@@ -294,6 +314,7 @@ func EnumCases(tier string) (cases []ImportCase, rule string) {
 			"every rendering with 1 deviation (default interleaving) x {one file; cut at every position from just before the first to just after the second of the two packets the deviation is about, imported one by one}. "
 	}
 	rule += fmt.Sprintf("Both tiers: default renderings cut into three files whose first two touch (equal timestamps across the first cut), imported one by one (%d cases; quick: second cut at most 3 packets after the first, or before the last packet). ", threeTouching)
+	rule += fmt.Sprintf("Default renderings with a frame that carries no stream (ARP, LLDP, ICMP echo, IPv4 frames that end inside their TCP / UDP header) in front of the first packet and in the middle, as one file and cut in front of the frame (%d cases). ", noiseCases)
 	rule += "non-trivial = at least one deviation or at least two files"
 	return
 }
